@@ -1044,3 +1044,198 @@ theorem jsonTrialWith_extent (chunk : Nat) {orig : List Nat} {c : Cap} (hinv : I
       rw [z3, z2]
       exact ⟨rfl, rfl⟩
   split <;> exact main
+
+end Xt.Translate
+
+/-! ## Every successful `ignore_value` consumes at least one byte -/
+namespace Xt.Json
+
+theorem doneF_le (stk r rest : List Nat)
+    (hA : ∀ frame up acc rest, igAfter frame up r acc = .ok rest → rest.length < r.length)
+    (h : doneF stk r = .ok rest) : rest.length ≤ r.length := by
+  unfold doneF at h
+  split at h
+  · simp at h; subst h; exact Nat.le_refl _
+  · exact Nat.le_of_lt (hA _ _ _ _ h)
+
+theorem skipWs_cons_le {bs r : List Nat} {b : Nat} (h : skipWs bs = b :: r) : r.length < bs.length := by
+  have := skipWs_length_le bs
+  rw [h] at this
+  simp only [List.length_cons] at this
+  omega
+
+theorem ig_lt (n : Nat) :
+    (∀ stk bs rest, bs.length ≤ n → igValue stk bs = .ok rest → rest.length < bs.length) ∧
+    (∀ frame up bs acc rest, bs.length ≤ n → igAfter frame up bs acc = .ok rest →
+      rest.length < bs.length) := by
+  induction n with
+  | zero =>
+    constructor
+    · intro stk bs rest hl h
+      have : bs = [] := List.eq_nil_of_length_eq_zero (by omega)
+      subst this
+      rw [igValue_eq] at h
+      simp [skipWs] at h
+    · intro frame up bs acc rest hl h
+      have : bs = [] := List.eq_nil_of_length_eq_zero (by omega)
+      subst this
+      rw [igAfter_eq] at h
+      simp [skipWs] at h
+  | succ n ih =>
+    obtain ⟨ihV, ihA⟩ := ih
+    have hV : ∀ stk bs rest, bs.length ≤ n + 1 → igValue stk bs = .ok rest →
+        rest.length < bs.length := by
+      intro stk bs rest hl h
+      rw [igValue_eq] at h
+      split at h
+      · simp at h
+      · rename_i b r hs
+        have hr := skipWs_cons_le hs
+        have hdone : ∀ r', r'.length ≤ r.length → doneF stk r' = .ok rest → rest.length < bs.length := by
+          intro r' hle hd
+          have := doneF_le stk r' rest (fun f u a rs hh => ihA f u r' a rs (by omega) hh) hd
+          omega
+        split at h
+        · split at h
+          · simp at h
+          · rename_i r' hi; exact hdone r' (ident_length hi) h
+        · split at h
+          · simp at h
+          · rename_i r' hi; exact hdone r' (ident_length hi) h
+        · split at h
+          · simp at h
+          · rename_i r' hi; exact hdone r' (ident_length hi) h
+        · split at h
+          · simp at h
+          · rename_i r' hi; exact hdone r' (Nat.le_of_lt (ignoreNumber_length hi)) h
+        · split at h
+          · simp at h
+          · rename_i r' hi
+            have := ignoreNumber_length hi
+            simp only [List.length_cons] at this
+            exact hdone r' (by omega) h
+        · split at h
+          · simp at h
+          · rename_i r' hi; exact hdone r' (Nat.le_of_lt (ignoreStr_length hi)) h
+        · have := ihA _ _ _ _ _ (by omega) h; omega
+        · have := ihA _ _ _ _ _ (by omega) h; omega
+        · simp at h
+    refine ⟨hV, ?_⟩
+    intro frame up bs acc rest hl h
+    rw [igAfter_eq] at h
+    split at h
+    · simp at h
+    · rename_i c r hs
+      have hr := skipWs_cons_le hs
+      have hcr : (c :: r).length ≤ bs.length := by
+        have := skipWs_length_le bs; rw [hs] at this; exact this
+      have hnext : ∀ bs', bs'.length ≤ bs.length → nextF frame up bs' = .ok rest →
+          rest.length < bs'.length := by
+        intro bs' hle hn
+        unfold nextF at hn
+        split at hn
+        · split at hn
+          · simp at hn
+          · rename_i q r1 hk
+            have h1 := skipWs_cons_le hk
+            split at hn
+            · simp at hn
+            · split at hn
+              · simp at hn
+              · rename_i r2 hi
+                have h2 := ignoreStr_length hi
+                split at hn
+                · simp at hn
+                · rename_i c3 r3 hc3
+                  have h3 := skipWs_cons_le hc3
+                  split at hn
+                  · simp at hn
+                  · have := hV _ _ _ (by omega) hn
+                    omega
+        · exact hV _ _ _ (by omega) hn
+      split at h
+      · have := hnext r (by omega) h; omega
+      · split at h
+        · have := doneF_le up r rest (fun f u a rs hh => ihA f u r a rs (by omega) hh) h
+          omega
+        · split at h
+          · simp at h
+          · have := hnext (c :: r) hcr h
+            omega
+
+/-- Every successful `ignore_value` consumes at least one byte. -/
+theorem ignoreValue_lt {bs rest : List Nat} (h : ignoreValue bs = .ok rest) : rest.length < bs.length :=
+  (ig_lt bs.length).1 [] bs rest (Nat.le_refl _) h
+
+end Xt.Json
+
+namespace Xt.Translate
+open Xt.Input Xt.Detect
+
+/-! ## The demand of a trial that matches -/
+
+/-- A matching MessagePack trial: the first byte is a collection marker, the
+decoder read a first value, and the trial's demand is exactly that value's
+extent (at least one byte, within the input). -/
+theorem mp_matched_demand (orig : List Nat)
+    (h : msgpackMatches (.ok orig) (mpClass (mpDecode orig)) = .matched) :
+    ∃ b v rest, orig.head? = some b ∧ markerTest b = true ∧ mpDecode orig = .ok (v, rest) ∧
+      mpTrialDemand orig = orig.length - rest.length ∧ 1 ≤ mpTrialDemand orig ∧
+      mpTrialDemand orig ≤ orig.length := by
+  simp only [msgpackMatches] at h
+  cases hh : orig.head? with
+  | none => rw [hh] at h; simp at h
+  | some b =>
+    rw [hh] at h
+    simp only at h
+    by_cases hmt : markerTest b = true
+    · simp only [hmt, ↓reduceIte] at h
+      cases hd : mpDecode orig with
+      | error e =>
+        rw [hd] at h
+        simp only [mpClass] at h
+        by_cases he : mpIsEof e = true
+        · simp [he] at h
+        · simp [he] at h
+      | ok p =>
+        obtain ⟨v, rest⟩ := p
+        have hlt : rest.length < orig.length := Msgpack.decodeG_lt true Msgpack.depthLimit orig v rest hd
+        have hdem : mpDemand orig = orig.length - rest.length := by simp [mpDemand, hd]
+        have htd : mpTrialDemand orig = orig.length - rest.length := by
+          simp only [mpTrialDemand, hh, hmt, ↓reduceIte, hdem]; omega
+        exact ⟨b, v, rest, rfl, hmt, rfl, htd, by omega, by omega⟩
+    · simp [hmt] at h
+
+/-- A matching JSON trial: `ignore_value` read a first value, and the trial's
+demand is that value's extent plus the look-ahead byte of a number. -/
+theorem json_matched_demand (orig : List Nat) (h : Json.trialReader orig = true) :
+    ∃ rest, Json.ignoreValue orig = .ok rest ∧ rest.length < orig.length ∧
+      jsonDemand orig = orig.length - rest.length + (if topNumber orig then 1 else 0) := by
+  unfold Json.trialReader at h
+  cases hi : Json.ignoreValue orig with
+  | error e => rw [hi] at h; simp at h
+  | ok rest => exact ⟨rest, rfl, Json.ignoreValue_lt hi, by simp [jsonDemand, hi]⟩
+
+theorem noFault_fa {src : Src} (h : src.noFault) : src.fa = none := by
+  cases src with
+  | slice bs => rfl
+  | reader s => exact h
+
+theorem sliceMode_fromReader (s : Source) : sliceMode (Handle.fromReader s) = false := rfl
+
+theorem handle_srcOf_slice (bs : List Nat) : (srcOf (.slice bs)).handle = .slice bs := rfl
+
+/-- An explicit run on `srcOf seen` is given exactly `seen`. -/
+theorem seenOfHandle_srcOf (bs : List Nat) :
+    seenOfHandle (srcOf (.slice bs)).handle = .slice bs ∧
+    seenOfHandle (srcOf (.reader bs false)).handle = .reader bs false := by
+  constructor
+  · have := seenOfHandle_spec (orig := bs) (h := .slice bs) rfl
+    simp only [sliceMode, ↓reduceIte] at this
+    exact this
+  · have := seenOfHandle_spec (orig := bs) (h := Handle.fromReader (Source.new bs [] false none))
+      ⟨Inv.new (Source.new bs [] false none), rfl⟩
+    simp only [sliceMode_fromReader, Bool.false_eq_true, ↓reduceIte] at this
+    exact this
+
+end Xt.Translate
